@@ -7,7 +7,7 @@ from sa.cfg import cfg_of
 from sa.effects import classify
 from sa.model import AnalysisError, norm, parent, walk_no_nested
 
-from .common import commands, module_roots, prov
+from .common import alts as _alts2, commands, module_roots, prov
 
 MAX_JOIN_S = 1.5
 
@@ -96,6 +96,55 @@ def run(report, p):
                     for t in n.targets:
                         if isinstance(t, ast.Attribute) and t.attr == "daemon" and _is_updater_expr(p, t.value, f, ucs):
                             r1.check(p.fold(n.value, f) is True, f, n, "daemon flag of the update checker is set to something other than True")
+
+    # ------------------------------------------------------------------ R20.11
+    r11 = report.rule(
+        "R20.11",
+        "the checker is the only concurrency in the package and nothing registers work for interpreter exit: no executor (concurrent.futures joins its worker threads in an exit hook "
+        "WITHOUT a timeout, whatever the daemon flag of the thread that submitted the work), no further Thread / Timer / Process that is not marked daemon, no atexit handler, "
+        "no sub-process that is waited for - each of them can hold the finished command open for as long as the update server stays silent",
+        1,
+    )
+    _CONC = {
+        "concurrent.futures.ThreadPoolExecutor": "its worker threads are joined without a timeout by an interpreter-exit hook (threading._register_atexit)",
+        "concurrent.futures.ProcessPoolExecutor": "its worker processes are joined without a timeout at interpreter exit",
+        "concurrent.futures.thread.ThreadPoolExecutor": "its worker threads are joined without a timeout by an interpreter-exit hook",
+        "multiprocessing.Pool": "its workers are joined at exit",
+        "multiprocessing.pool.ThreadPool": "its workers are joined at exit",
+        "multiprocessing.Process": "a non-daemon process is joined at interpreter exit",
+        "threading.Timer": "a Timer is a non-daemon thread unless marked, and is joined at interpreter exit",
+        "atexit.register": "an exit handler runs after the command finished, unbounded",
+        "asyncio.run": "the event loop waits for its tasks",
+        "subprocess.run": "the sub-process is waited for",
+        "subprocess.call": "the sub-process is waited for",
+        "subprocess.check_call": "the sub-process is waited for",
+        "subprocess.check_output": "the sub-process is waited for",
+    }
+    n_calls = 0
+    for fq, f in p.funcs.items():
+        for call, tg in p.calls[fq]:
+            n_calls += 1
+            for t in tg:
+                t0 = t[4:] if t.startswith("ext:") else (t[6:] if t.startswith("class:") else t)
+                if t0 in _CONC:
+                    r11.instance(f, call, norm(call)[:60])
+                    r11.check(False, f, call, f"`{norm(call)[:60]}`: {_CONC[t0]} - with a server that accepts the connection and never answers, the command prints its result and then never terminates (the daemon flag and the bounded join of the checker do not cover it)", construct=f"{t0} in the package")
+                elif t0 == "threading.Thread" and not any(k.arg == "daemon" and p.fold(k.value, f) is True for k in call.keywords):
+                    r11.instance(f, call, norm(call)[:60])
+                    r11.check(False, f, call, f"`{norm(call)[:60]}` creates a further thread that is not marked daemon: it is joined at interpreter exit without a timeout", construct="non-daemon thread in the package")
+    for mq, m in sorted(p.modules.items()):
+        for n in ast.walk(m.tree):
+            if isinstance(n, (ast.Import, ast.ImportFrom)):
+                mods = [a.name for a in n.names] if isinstance(n, ast.Import) else [n.module or ""]
+                for mod_ in mods:
+                    if mod_.split(".")[0] in ("concurrent", "multiprocessing", "asyncio", "atexit", "subprocess", "sched"):
+                        r11.instance(None, n, f"{mq}: import {mod_}")
+                        # a use at module level (outside any function) is not in p.calls
+                        top = [x for x in ast.walk(m.tree) if isinstance(x, ast.Call) and id(x) not in p.func_of_node and any(isinstance(y, ast.Name) and y.id in [a.asname or a.name.split(".")[0] for a in n.names] for y in ast.walk(x.func))]
+                        for x in top:
+                            r11.check(False, None, x, f"`{norm(x)[:60]}` at import time of {mq} uses {mod_}: work registered there outlives the command", construct=f"{mod_} used at import time")
+    r11.instance(None, None, f"{n_calls} resolved call sites of the package scanned for executors, threads, processes and exit hooks")
+    r11.check(True, None, None, "")
 
     # ------------------------------------------------------------------ R20.2
     r2 = report.rule("R20.2", f"every join on the checker thread has a constant timeout <= {MAX_JOIN_S}s; no loop polls the checker's state", 2)
@@ -233,6 +282,16 @@ def run(report, p):
                 os_ = [a for o in pr_.origins(v, f) for a in _alts(pr_.inline(o, depth=2))]
                 ok = bool(os_) and all((o[0] == "const" and o[1] is None) or (o[0] == "call" and o[1].endswith("version.parse")) for o in os_)
             r4.instance(f, v, f"latest_version = {norm(v)}")
+            if not ok:
+                # a violation needs a value that is visibly not a parsed version (the server's raw answer, a string); a value this rule cannot trace is not one
+                raw_like = isinstance(v, ast.Constant) or any(isinstance(x, ast.Call) and isinstance(x.func, ast.Attribute) and x.func.attr in ("json", "get", "text", "strip", "decode", "format") for x in ast.walk(v)) or (isinstance(v, ast.Subscript))
+                try:
+                    os2 = [a for o in prov(p).origins(v, f) for a in _alts2(prov(p).inline(o, depth=2))] if isinstance(v, (ast.Name, ast.Call)) else []
+                except AnalysisError:
+                    os2 = []
+                raw_like = raw_like or any((o[0] == "const" and o[1] is not None) or (o[0] == "call" and o[1].split(".")[-1] in ("json", "get", "str", "strip", "decode", "format")) or (o[0] == "attr" and o[2] in ("text", "content")) for o in os2)
+                if not raw_like:
+                    raise AnalysisError(f"{f.loc(v)}: cannot tell what `{norm(v)[:60]}` stores into latest_version (neither None / version.parse(...) nor visibly the server's raw answer)")
             r4.check(ok, f, v, "latest_version is assigned something other than None or version.parse(...)", construct=f"latest_version = {norm(v)}")
         nu = p.classes[uc].methods.get("needs_update")
         if nu is None or not nu.is_property:
